@@ -37,8 +37,12 @@ pub struct Way {
     pub de: Option<Cfg>,
     /// row kinds for raw / cc14 / pn / structured inputs (0 = family not run in this way)
     pub kinds: [i64; 4],
-    /// the natural representation must round-trip in this way (serializer and deserializer match)
+    /// the natural representation is put through this way (serializer and deserializer match)
     pub roundtrip: bool,
+    /// ... and must be ACCEPTED there (row kind 7); otherwise only "if accepted then equal" is demanded
+    /// (row kind 17): presenting structs as sequences is a choice of the format, and a `Deserialize`
+    /// that only reads maps is within its rights to refuse
+    pub complete: bool,
 }
 
 impl Way {
@@ -61,17 +65,17 @@ pub fn ways() -> Vec<Way> {
     let d = |human, narrow, ident| Some(Cfg { human, narrow, ident });
     vec![
         // JSON: soundness and completeness
-        Way { code: 0, ser: None, de: None, kinds: [2, 3, 4, 5], roundtrip: true },
+        Way { code: 0, ser: None, de: None, kinds: [2, 3, 4, 5], roundtrip: true, complete: true },
         // structs as sequences, read by JSON
-        Way { code: 1, ser: t(false, true), de: None, kinds: [0, 9, 8, 0], roundtrip: false },
+        Way { code: 1, ser: t(false, true), de: None, kinds: [0, 9, 8, 0], roundtrip: false, complete: false },
         // a self-describing format that is NOT human-readable
-        Way { code: 2, ser: t(true, false), de: d(false, false, Ident::Str), kinds: [12, 9, 8, 15], roundtrip: true },
+        Way { code: 2, ser: t(true, false), de: d(false, false, Ident::Str), kinds: [12, 9, 8, 15], roundtrip: true, complete: true },
         // a positional binary-like format: not human-readable, narrow integers
-        Way { code: 3, ser: t(false, false), de: d(false, true, Ident::Str), kinds: [12, 9, 8, 15], roundtrip: true },
+        Way { code: 3, ser: t(false, false), de: d(false, true, Ident::Str), kinds: [12, 9, 8, 15], roundtrip: true, complete: false },
         // identifiers by index / as bytes (soundness only)
-        Way { code: 4, ser: t(true, true), de: d(true, true, Ident::Index), kinds: [12, 9, 8, 15], roundtrip: false },
-        Way { code: 5, ser: t(true, false), de: d(false, true, Ident::Bytes), kinds: [12, 9, 8, 15], roundtrip: false },
-        Way { code: 6, ser: t(false, true), de: d(true, false, Ident::Str), kinds: [12, 9, 8, 15], roundtrip: true },
+        Way { code: 4, ser: t(true, true), de: d(true, true, Ident::Index), kinds: [12, 9, 8, 15], roundtrip: false, complete: false },
+        Way { code: 5, ser: t(true, false), de: d(false, true, Ident::Bytes), kinds: [12, 9, 8, 15], roundtrip: false, complete: false },
+        Way { code: 6, ser: t(false, true), de: d(true, false, Ident::Str), kinds: [12, 9, 8, 15], roundtrip: true, complete: false },
     ]
 }
 
@@ -165,13 +169,14 @@ macro_rules! int_rows {
             if way.roundtrip {
                 for v in 0..=(<$T>::MAX.get() as i64) {
                     let x = <$T>::new(v as _);
-                    let (r, _) = guarded(|| way.de::<$T>(way.ser(&x)).map(|y| y == x));
+                    let rep = way.ser(&x);
+                    let (r, _) = guarded(|| way.de::<$T>(rep).map(|y| y == x));
                     let (ok, eq) = match r {
                         Some(Ok(e)) => (1, e as i64),
                         Some(Err(_)) => (0, 0),
                         None => (PANIC, PANIC),
                     };
-                    $w.push(&[7, 100 * way.code + $tc, v, 0, 0, 0, ok, eq]);
+                    $w.push(&[if way.complete { 7 } else { 17 }, 100 * way.code + $tc, v, 0, 0, 0, ok, eq]);
                 }
             }
         }
@@ -542,21 +547,24 @@ fn composite_rows(w: &mut ChunkWriter, way: &Way) {
 /// natural representation of valid composite values: serialize, deserialize, compare
 fn roundtrip_rows(w: &mut ChunkWriter, way: &Way) {
     let off = 100 * way.code;
+    let complete = way.complete;
     let mut rt = |tid: i64, a: [i64; 4], ok_eq: Option<Result<bool, ()>>| {
         let (ok, eq) = match ok_eq {
             Some(Ok(e)) => (1, e as i64),
             Some(Err(_)) => (0, 0),
             None => (PANIC, PANIC),
         };
-        w.push(&[7, off + tid, a[0], a[1], a[2], a[3], ok, eq]);
+        w.push(&[if complete { 7 } else { 17 }, off + tid, a[0], a[1], a[2], a[3], ok, eq]);
     };
     for s in 128..256i64 {
         for &(a, b) in &[(0i64, 0i64), (1, 127), (127, 1), (64, 64), (120, 5)] {
             let m = RawShortMessage::from_bytes((s as u8, U7::new(a as u8), U7::new(b as u8))).unwrap();
-            let (r, _) = guarded(|| way.de::<RawShortMessage>(way.ser(&m)).map(|y| y == m).map_err(|_| ()));
+            let rep = way.ser(&m);
+            let (r, _) = guarded(|| way.de::<RawShortMessage>(rep).map(|y| y == m).map_err(|_| ()));
             rt(6, [s, a, b, 0], r);
             let x = m.to_structured();
-            let (r, _) = guarded(|| way.de::<StructuredShortMessage>(way.ser(&x)).map(|y| y == x).map_err(|_| ()));
+            let rep = way.ser(&x);
+            let (r, _) = guarded(|| way.de::<StructuredShortMessage>(rep).map(|y| y == x).map_err(|_| ()));
             rt(7, [s, a, b, 0], r);
         }
     }
@@ -564,7 +572,8 @@ fn roundtrip_rows(w: &mut ChunkWriter, way: &Way) {
         for n in 0..32i64 {
             for &v in &[0i64, 1, 8192, 16383] {
                 let m = ControlChange14BitMessage::new(Channel::new(c as u8), ControllerNumber::new(n as u8), U14::new(v as u16));
-                let (r, _) = guarded(|| way.de::<ControlChange14BitMessage>(way.ser(&m)).map(|y| y == m).map_err(|_| ()));
+                let rep = way.ser(&m);
+                let (r, _) = guarded(|| way.de::<ControlChange14BitMessage>(rep).map(|y| y == m).map_err(|_| ()));
                 rt(8, [c, n, v, 0], r);
             }
         }
@@ -577,7 +586,8 @@ fn roundtrip_rows(w: &mut ChunkWriter, way: &Way) {
                     let (b14, dt) = match ctor % 4 { 0 => (0, 0), 1 => (1, 0), 2 => (0, 2), _ => (0, 1) };
                     let vv = if b14 == 1 { v * 129 } else { v };
                     let m = crate::basics::build_pn(&[c, n, vv, reg, b14, dt]);
-                    let (r, _) = guarded(|| way.de::<ParameterNumberMessage>(way.ser(&m)).map(|y| y == m).map_err(|_| ()));
+                    let rep = way.ser(&m);
+                    let (r, _) = guarded(|| way.de::<ParameterNumberMessage>(rep).map(|y| y == m).map_err(|_| ()));
                     rt(9, [ctor, c, n, vv], r);
                 }
             }
@@ -587,14 +597,16 @@ fn roundtrip_rows(w: &mut ChunkWriter, way: &Way) {
         for a in 0..(if k == 7 { 2 } else { 16 }) {
             for t in 0..(if k == 7 { 4 } else { 1 }) {
                 let f = crate::pure::frame_of([k, a, t]);
-                let (r, _) = guarded(|| way.de::<TimeCodeQuarterFrame>(way.ser(&f)).map(|y| frame_code(y) == [k, a, t]).map_err(|_| ()));
+                let rep = way.ser(&f);
+                let (r, _) = guarded(|| way.de::<TimeCodeQuarterFrame>(rep).map(|y| frame_code(y) == [k, a, t]).map_err(|_| ()));
                 rt(11, [k, a, t, 0], r);
             }
         }
     }
     for b in 128..256i64 {
         if let Ok(t) = ShortMessageType::try_from(b as u8) {
-            let (r, _) = guarded(|| way.de::<ShortMessageType>(way.ser(&t)).map(|y| y == t).map_err(|_| ()));
+            let rep = way.ser(&t);
+            let (r, _) = guarded(|| way.de::<ShortMessageType>(rep).map(|y| y == t).map_err(|_| ()));
             rt(12, [b, 0, 0, 0], r);
         }
     }
